@@ -123,6 +123,48 @@ def hostile_other_bodies():
     return out
 
 
+def odd_metadata_bodies():
+    """well-formed metadata replies that leave the client with an unusual view of the cluster; the calls made AFTERWARDS are under test"""
+    md = lambda brokers_, topics: {"brokers": brokers_, "topics": topics}
+    bs = [{"node_id": 1, "host": b"b1", "port": 9092}, {"node_id": 2, "host": b"b2", "port": 9093}]
+    ptn = lambda i, l: {"error": 0 if l >= 0 else 5, "id": i, "leader": l, "replicas": [], "isr": []}
+    tp = lambda t, ls: {"error": 0, "topic": t, "partitions": [ptn(i, l) for i, l in enumerate(ls)]}
+    return [
+        ("md-all-leaderless", md(bs, [tp(T1, [-1, -1]), tp(b"t2", [-1])])),
+        ("md-one-leaderless", md(bs, [tp(T1, [-1, 1]), tp(b"t2", [2])])),
+        ("md-leader-not-listed", md(bs, [tp(T1, [7, 7]), tp(b"t2", [9])])),
+        ("md-no-brokers", md([], [tp(T1, [1, 1]), tp(b"t2", [2])])),
+        ("md-no-partitions", md(bs, [tp(T1, []), tp(b"t2", [])])),
+        ("md-no-topics", md(bs, [])),
+        ("md-reversed-ids", md(bs, [{"error": 0, "topic": T1, "partitions": [ptn(1, 2), ptn(0, 1)]}, tp(b"t2", [2])])),
+        ("md-many-partitions", md(bs, [tp(T1, [1, 2] * 40), tp(b"t2", [2])])),
+    ]
+
+
+def followups():
+    """(name, ops) run after the odd metadata has been loaded"""
+    prod = T("producer_build", [T("from_client"), [T("with_required_acks", [1])]])
+    cons = T("consumer_build", [T("from_client"), [T("with_topic", [T1]), T("with_fallback_offset", [T("earliest")])]])
+    return [
+        ("send-keyless", [prod, T("send", [[T("r", [T1, -1, b"", b"v"])]]), T("send", [[T("r", [T1, -1, b"", b"w"])]])]),
+        ("send-keyed", [prod, T("send", [[T("r", [T1, -1, b"key", b"v"])]])]),
+        ("send-explicit", [prod, T("send_all", [[T("r", [T1, 0, b"", b"v"]), T("r", [T1, 1, b"k", b"v"]), T("r", [b"t2", 0, b"", b"v"])]])]),
+        ("produce", [T("produce_messages", [1, 1, 0, [pm(T1, 0, b"a", b"b"), pm(T1, 1, None, b"c")]])]),
+        ("fetch_messages", [T("fetch_messages", [[fp(T1, 0, 0), fp(T1, 1, 0), fp(b"t2", 0, 0)]])]),
+        ("fetch_offsets", [T("fetch_offsets", [[T1, b"t2"], T("latest")]), T("fetch_topic_offsets", [T1, T("earliest")])]),
+        ("consumer", [cons, T("poll"), T("poll")]),
+        ("commit", [T("set_group_offset_storage", [1]), T("commit_offsets", [b"g", [T("co", [T1, 0, 1]), T("co", [T1, 1, 1])]]),
+                    T("fetch_group_offsets", [b"g", [T("fgo", [T1, 0]), T("fgo", [T1, 1])]])]),
+    ]
+
+
+def make_followup_case(label, body, fname, fops, profile):
+    spec = cluster_spec()
+    item = {"op": T("load_metadata_all"), "mutate": {"kind": "body", "body": body, "api": "metadata"}}
+    return {"cluster": spec, "ops": boot_ops(spec) + [item] + list(fops), "profile": profile,
+            "meta": {"target": "after:" + fname, "api": "metadata", "label": label}}
+
+
 def make_case(name, api, setup, op, mut, profile, label, raw_size=None):
     spec = cluster_spec()
     item = {"op": op}
@@ -171,6 +213,10 @@ def gen(rng, tier):
             for (name, api, setup, op) in tg:
                 if api == api_:
                     cases.append(make_case(name, api, setup, op, {"kind": "body", "body": body}, prof, label))
+    for i, (label, body) in enumerate(odd_metadata_bodies()):
+        for j, (fname, fops) in enumerate(followups()):
+            for prof in (profiles if tier == "thorough" else [profiles[(i + j) % 2]]):
+                cases.append(make_followup_case(label, body, fname, fops, prof))
     for n, c in enumerate(cases):
         c["id"] = "C13-%d-%s-%s" % (n, c["meta"]["target"], c["meta"]["label"])
     return cases
@@ -208,13 +254,15 @@ def oracle(case, recs, cl):
                 break
         else:
             fails.append("C13: %s panicked: %s" % (what, msg[:100].decode("latin-1")))
-    if len(recs) < len(case["ops"]) and res.name not in ("panic", "hang", "abort"):
+    no_object = (res.name == "harness_error" and len(recs) >= 2 and recs[-2]["op"].name in ("consumer_build", "producer_build")
+                 and recs[-2]["impl"].name == "err")      # the builder returned an error: there is nothing to call afterwards
+    if len(recs) < len(case["ops"]) and res.name not in ("panic", "hang", "abort") and not no_object:
         fails.append("C13: %s case aborted early" % what)
     return fails
 
 
 def nontrivial(case, recs):
-    return len(recs) == len(case["ops"]) or recs[-1]["impl"].name in ("panic", "hang", "abort")
+    return len(recs) == len(case["ops"]) or recs[-1]["impl"].name in ("panic", "hang", "abort", "harness_error")
 
 
 def stats(case, recs):
